@@ -91,7 +91,9 @@ pub fn run(op: &str, var: &[&str], ints: &[i64], sc: &[V]) -> Out {
     });
     let f = f.unwrap_or('?');
     let st = var.get(1).copied().unwrap_or("o");
-    let t3 = var.get(2).copied().unwrap_or("");
+    // `acc` (position >= 3, `umax` / `fuse`): also report whether the crate's checked constructors accept the operands and the result
+    let acc = var.iter().skip(2).any(|t| *t == "acc");
+    let t3 = var.iter().skip(2).copied().find(|t| *t != "acc").unwrap_or("");
     let alias = var.iter().skip(2).any(|t| *t == "alias");
     let asg = var.iter().skip(2).any(|t| *t == "asg");
     if alias && asg {
@@ -100,16 +102,16 @@ pub fn run(op: &str, var: &[&str], ints: &[i64], sc: &[V]) -> Out {
     }
     if var.first().map_or(false, |s| s.len() == 2) {
         // multi-dimensional container families M2/M3, D2/D3, N2/N3 (ops_nd.rs)
-        return op_nd(op, var, st, t3, alias, ints, sc);
+        return op_nd(op, var, st, t3, alias, acc, ints, sc);
     }
     let shared = var.iter().skip(2).any(|t| *t == "shared");
     match op {
         "simplex_new" => op_simplex_new(f, t3, ints, sc),
         "opinion_new" => op_opinion_new(f, t3, ints, sc),
-        "proj" | "maxu" | "umax" => op_unary(op, f, st, t3, ints, sc),
+        "proj" | "maxu" | "umax" => op_unary(op, f, st, t3, acc, ints, sc),
         "discount" => op_discount(f, st, t3, ints, sc),
         "discount_chain" => op_discount_chain(f, st, t3, ints, sc),
-        "fuse" => op_fuse(f, st, t3, alias, ints, sc),
+        "fuse" => op_fuse(f, st, t3, alias, acc, ints, sc),
         "fuse_os" => op_fuse_os(f, st, t3, ints, sc),
         "fuse_ss" => op_fuse_ss(f, t3, alias, ints, sc),
         "meq" if ints.len() == 2 => op_meq2(f, ints, sc),
@@ -249,9 +251,47 @@ fn op_opinion_new(f: char, t3: &str, ints: &[i64], sc: &[V]) -> Out {
 }
 
 // ---------------------------------------------------------------------------------------------
+// variant token `acc`: acceptance by the crate's own checked constructors (the values are cloned, nothing is changed)
+
+/// does `Simplex::try_new` accept the values of this simplex?
+macro_rules! acc_s {
+    ($T:ty, $s:expr) => {{
+        let r: Result<Simplex<$T, V>, InvalidValueError> = Simplex::try_new($s.belief.clone(), $s.uncertainty);
+        r.is_ok()
+    }};
+}
+
+/// does `Opinion::try_new` accept the values of this simplex with this base rate?
+macro_rules! acc_o {
+    ($T:ty, $s:expr, $a:expr) => {{
+        let r: Result<Opinion<$T, V>, InvalidValueError> =
+            Opinion::try_new($s.belief.clone(), $s.uncertainty, $a.clone());
+        r.is_ok()
+    }};
+}
+
+/// fused opinion; with `acc` followed by three flags: both operands accepted by `Opinion::try_new`, the result's
+/// simplex accepted by `Simplex::try_new`, the whole result accepted by `Opinion::try_new`
+macro_rules! fuse_out {
+    ($T:ty, $acc:expr, $opnd:expr, $w:expr) => {{
+        let w = $w;
+        if $acc {
+            let mut o = String::new();
+            w.dump(&mut o);
+            $opnd.dump(&mut o);
+            acc_s!($T, w.simplex).dump(&mut o);
+            acc_o!($T, w.simplex, w.base_rate).dump(&mut o);
+            Out::Ok(o)
+        } else {
+            ok(w)
+        }
+    }};
+}
+
+// ---------------------------------------------------------------------------------------------
 // proj / maxu / umax
 
-fn op_unary(op: &str, f: char, st: &str, t3: &str, ints: &[i64], sc: &[V]) -> Out {
+fn op_unary(op: &str, f: char, st: &str, t3: &str, acc: bool, ints: &[i64], sc: &[V]) -> Out {
     let Some(&[n]) = us(ints, 1, 4).as_deref() else { return Out::Unsup };
     need!(sc.len() == 2 * n + 1);
     macro_rules! body {
@@ -277,7 +317,16 @@ fn op_unary(op: &str, f: char, st: &str, t3: &str, ints: &[i64], sc: &[V]) -> Ou
                 }
                 _ => {
                     let s: Simplex<T, V> = w.simplex.uncertainty_maximized(&w.base_rate);
-                    ok(&s)
+                    if acc {
+                        // two more flags: operand accepted by `Opinion::try_new`, result accepted by `Simplex::try_new`
+                        let mut o = String::new();
+                        s.dump(&mut o);
+                        acc_o!(T, w.simplex, w.base_rate).dump(&mut o);
+                        acc_s!(T, s).dump(&mut o);
+                        Out::Ok(o)
+                    } else {
+                        ok(&s)
+                    }
                 }
             }
         }};
@@ -362,7 +411,7 @@ fn op_discount_chain(f: char, st: &str, t3: &str, ints: &[i64], sc: &[V]) -> Out
 // ---------------------------------------------------------------------------------------------
 // fusion
 
-fn op_fuse(f: char, st: &str, t3: &str, alias: bool, ints: &[i64], sc: &[V]) -> Out {
+fn op_fuse(f: char, st: &str, t3: &str, alias: bool, acc: bool, ints: &[i64], sc: &[V]) -> Out {
     need!(ints.len() == 3);
     let Some(&[n]) = us(&ints[..1], 1, 4).as_deref() else { return Out::Unsup };
     let Some(fo) = fuse_op(ints[1]) else { return Out::Unsup };
@@ -377,17 +426,21 @@ fn op_fuse(f: char, st: &str, t3: &str, alias: bool, ints: &[i64], sc: &[V]) -> 
             type T = c1!($F, X, $n, V);
             let mut l: Opinion<T, V> = mk_o(&sc[..2 * $n + 1]);
             let r: Opinion<T, V> = mk_o(&sc[2 * $n + 1..]);
+            // `acc`: are the operands AS PASSED accepted by `Opinion::try_new` (shared: the right simplex over the left base rate)
+            let opnd = acc && acc_o!(T, l.simplex, l.base_rate)
+                && (alias
+                    || if same { acc_o!(T, r.simplex, l.base_rate) } else { acc_o!(T, r.simplex, r.base_rate) });
             if alias {
                 // the SAME object twice; the second operand's scalars are ignored
                 return match st {
                     "o" => {
                         let w: Opinion<T, V> = fo.fuse(&l, &l);
-                        ok(&w)
+                        fuse_out!(T, acc, opnd, &w)
                     }
                     "r" => {
                         let lr = OpinionRef::from((&l.simplex, &l.base_rate));
                         let w: Opinion<T, V> = fo.fuse(lr.clone(), lr);
-                        ok(&w)
+                        fuse_out!(T, acc, opnd, &w)
                     }
                     _ => Out::Unsup,
                 };
@@ -395,26 +448,26 @@ fn op_fuse(f: char, st: &str, t3: &str, alias: bool, ints: &[i64], sc: &[V]) -> 
             match (t3, st, same) {
                 ("", "o", false) => {
                     let w: Opinion<T, V> = fo.fuse(&l, &r);
-                    ok(&w)
+                    fuse_out!(T, acc, opnd, &w)
                 }
                 ("", "r", false) => {
                     let w: Opinion<T, V> = fo.fuse(l.as_ref(), r.as_ref());
-                    ok(&w)
+                    fuse_out!(T, acc, opnd, &w)
                 }
                 ("", "r", true) => {
                     // ONE base-rate object (the left one's values) borrowed by both operands
                     let a: T = l.base_rate.clone();
                     let w: Opinion<T, V> =
                         fo.fuse(OpinionRef::from((&l.simplex, &a)), OpinionRef::from((&r.simplex, &a)));
-                    ok(&w)
+                    fuse_out!(T, acc, opnd, &w)
                 }
                 ("asg", "o", false) => {
                     fo.fuse_assign(&mut l, &r);
-                    ok(&l)
+                    fuse_out!(T, acc, opnd, &l)
                 }
                 ("asg", "r", false) => {
                     fo.fuse_assign(&mut l, r.as_ref());
-                    ok(&l)
+                    fuse_out!(T, acc, opnd, &l)
                 }
                 // owned opinions cannot share a base-rate object; fuse_assign borrows lhs mutably
                 _ => Out::Unsup,
